@@ -297,6 +297,7 @@ type Exec struct {
 	noteOnce  map[string]bool
 	autoMerge int
 	flags     map[string]flagRec
+	clockLoc  *Obj
 }
 
 func (ex *Exec) tb() *smt.Table { return ex.eng.TB }
